@@ -748,7 +748,12 @@ func (state *RuntimeState) setNewAuthCookie(w http.ResponseWriter,
 	return cookieVal, nil
 }
 
-func (state *RuntimeState) updateAuthCookieAuthlevel(w http.ResponseWriter, r *http.Request, authlevel int) (string, error) {
+// updateAuthCookieAuthlevel re-signs the request's auth cookie with the new auth
+// level. The cookie MUST belong to username, the user the request was
+// authenticated as: checkAuth may have authenticated the request by other
+// means (a TLS client certificate), and the factor that was just verified was
+// verified for that user only.
+func (state *RuntimeState) updateAuthCookieAuthlevel(w http.ResponseWriter, r *http.Request, username string, authlevel int) (string, error) {
 	var authCookie *http.Cookie
 	for _, cookie := range r.Cookies() {
 		if cookie.Name != authCookieName {
@@ -762,7 +767,7 @@ func (state *RuntimeState) updateAuthCookieAuthlevel(w http.ResponseWriter, r *h
 	}
 
 	var err error
-	cookieVal, err := state.updateAuthJWTWithNewAuthLevel(authCookie.Value, authlevel)
+	cookieVal, err := state.updateAuthJWTWithNewAuthLevel(authCookie.Value, username, authlevel)
 	if err != nil {
 		return "", err
 	}
